@@ -64,9 +64,9 @@ pub fn module(r: &mut Rng, allow_unstable: bool) -> (Vec<u8>, AInfo) {
         if m64 { info.mem64 += 1; } if sh { info.shared += 1; }
         s.memory(we::MemoryType { minimum: min + 1, maximum: max.map(|x| x + 1), memory64: m64, shared: sh, page_size_log2: None }); mems.push((m64, sh)); } m.section(&s); }
     // globals
-    let n_g = r.usize(4); if n_g > 0 { let mut s = we::GlobalSection::new(); for _ in 0..n_g { let t = r.below(6) as u8; let t = if t == 4 { 5 } else { t }; let mu = r.chance(1, 2);
+    let n_g = r.usize(4); if n_g > 0 { let mut s = we::GlobalSection::new(); for _ in 0..n_g { let t = r.below(6) as u8; let mu = r.chance(1, 2);   // 4 = v128: a constant whose sixteen bytes are all different
         let imm: Vec<usize> = globals.iter().enumerate().filter(|(_, g)| g.2 && !g.1 && g.0 == t).map(|(i, _)| i).collect();
-        let init = if !imm.is_empty() && r.chance(1, 2) { we::ConstExpr::global_get(*r.pick(&imm) as u32) } else { match t { 0 => we::ConstExpr::i32_const(r.below(100) as i32 - 50), 1 => we::ConstExpr::i64_const(r.below(100) as i64), 2 => we::ConstExpr::f32_const(f32::from_bits(0x7fa00001)), 3 => we::ConstExpr::f64_const(1.5),
+        let init = if !imm.is_empty() && r.chance(1, 2) { we::ConstExpr::global_get(*r.pick(&imm) as u32) } else { match t { 0 => we::ConstExpr::i32_const(r.below(100) as i32 - 50), 1 => we::ConstExpr::i64_const(r.below(100) as i64), 2 => we::ConstExpr::f32_const(f32::from_bits(0x7fa00001)), 3 => we::ConstExpr::f64_const(1.5), 4 => we::ConstExpr::v128_const(0x0f0e0d0c0b0a09080706050403020100u128 as i128 + r.below(200) as i128),
             _ => if r.chance(1, 2) { we::ConstExpr::ref_func(r.usize(funcs.len()) as u32) } else { we::ConstExpr::ref_null(we::HeapType::Abstract { shared: false, ty: we::AbstractHeapType::Func }) } } };
         s.global(we::GlobalType { val_type: vt(t), mutable: mu, shared: false }, &init); globals.push((t, mu, false)); } m.section(&s); }
     info.n_tables = tables.len(); info.n_mems = mems.len(); info.n_globals = globals.len();
@@ -159,10 +159,13 @@ pub fn module(r: &mut Rng, allow_unstable: bool) -> (Vec<u8>, AInfo) {
         // disturb any other subsection
         let uninterpreted = only.is_none() && r.chance(1, 3);
         if uninterpreted && n_imp_funcs < funcs.len() { let mut lm = we::NameMap::new(); lm.append(0, "exit"); lm.append(1, "again"); let mut il = we::IndirectNameMap::new(); il.append(n_imp_funcs as u32, &lm); ns.labels(&il); }
+        // sometimes the names are spread over TWO `name` custom sections (legal: every one of them is read)
+        let split = only.is_none() && r.chance(1, 4); let mut ns2 = we::NameSection::new();
         for (kind, n) in [(2u64, types.len()), (3, tables.len()), (4, mems.len()), (5, globals.len()), (6, n_elems), (7, n_d)] { let nm = mk(r, n, kind); if nm.is_empty() && only.is_some() { continue; }
-            match kind { 2 => { ns.types(&nm); } 3 => { ns.tables(&nm); } 4 => { ns.memories(&nm); } 5 => { ns.globals(&nm); } 6 => { ns.elements(&nm); } _ => { ns.data(&nm); } } }
+            let t = if split && kind >= 4 { &mut ns2 } else { &mut ns };
+            match kind { 2 => { t.types(&nm); } 3 => { t.tables(&nm); } 4 => { t.memories(&nm); } 5 => { t.globals(&nm); } 6 => { t.elements(&nm); } _ => { t.data(&nm); } } }
         if uninterpreted && r.chance(1, 2) { let mut fm = we::NameMap::new(); fm.append(0, "field0"); let mut il = we::IndirectNameMap::new(); il.append(0, &fm); ns.fields(&il); let mut tg = we::NameMap::new(); tg.append(0, "tag0"); ns.tags(&tg); }
-        m.section(&ns);
+        m.section(&ns); if split { m.section(&ns2); }
     }
     custom(&mut m, r, &mut info, &mut customs_left);
     if r.chance(1, 3) { info.has_producers = true; let mut p = we::ProducersSection::new();
